@@ -997,3 +997,424 @@ Proof.
 Qed.
 End Val.
 End Flt.
+
+(* ---- namespace prefix allocation: every element is created in the namespace of its own package ---- *)
+Lemma alookup_aset_same {V} k (v : V) l : alookup k (aset k v l) = Some v.
+Proof.
+  induction l as [|[k' v'] r IH]; cbn [aset alookup]; [rewrite String.eqb_refl; reflexivity|].
+  destruct (String.eqb k k') eqn:E; cbn [alookup]; rewrite E; [reflexivity|exact IH].
+Qed.
+Lemma alookup_aset_other {V} k k' (v : V) l : k' <> k -> alookup k' (aset k v l) = alookup k' l.
+Proof.
+  intros H. induction l as [|[k2 v2] r IH]; cbn [aset alookup].
+  - apply String.eqb_neq in H. rewrite H. reflexivity.
+  - destruct (String.eqb k k2) eqn:E; cbn [alookup].
+    + apply String.eqb_eq in E. subst k2. apply String.eqb_neq in H. rewrite H. reflexivity.
+    + destruct (String.eqb k' k2); [reflexivity|exact IH].
+Qed.
+Lemma fresh_prefix_fresh fuel nsmap raw : forall cur dup p dup',
+  fresh_prefix fuel nsmap raw cur dup = Ok (p, dup') -> amem p nsmap = false.
+Proof.
+  induction fuel as [|k IH]; intros cur dup p dup' H; cbn [fresh_prefix] in H.
+  - destruct (amem cur nsmap) eqn:E; [discriminate|]. injection H as <- <-. exact E.
+  - destruct (amem cur nsmap) eqn:E; [|injection H as <- <-; exact E]. eapply IH. exact H.
+Qed.
+(* the allocation state is consistent: the prefix recorded for a URL is bound to that URL *)
+Definition ns_inv (st : nsst) : Prop :=
+  forall url p, alookup url (ns_url2p st) = Some p -> alookup p (ns_map st) = Some url.
+Lemma ns_inv_init : ns_inv ns_init.
+Proof. intros url p H. discriminate. Qed.
+Theorem prefix_alloc_injective st n u st' :
+  ns_inv st -> alloc_ns st n = Ok (u, st') -> u = fst (ns_of_type n) /\ ns_inv st'.
+Proof.
+  intros HI H. unfold alloc_ns in H. set (url := fst (ns_of_type n)) in *.
+  destruct (amem url (ns_url2p st)) eqn:EM.
+  - cbn [bind] in H. unfold amem in EM. destruct (alookup url (ns_url2p st)) as [p|] eqn:EL; [|discriminate].
+    rewrite (HI url p EL) in H. injection H as <- <-. split; [reflexivity|exact HI].
+  - destruct (fresh_prefix _ _ _ _ _) as [[p dup']| |] eqn:EF; cbn [bind] in H; try discriminate.
+    cbn [fst snd ns_url2p ns_map] in H. rewrite alookup_aset_same in H. rewrite alookup_aset_same in H.
+    injection H as <- <-. split; [reflexivity|].
+    pose proof (fresh_prefix_fresh _ _ _ _ _ _ _ EF) as FR.
+    intros url' p' HL. cbn [ns_url2p ns_map] in *.
+    destruct (String.eqb url' url) eqn:EU.
+    + apply String.eqb_eq in EU. subst url'. rewrite alookup_aset_same in HL. injection HL as <-. apply alookup_aset_same.
+    + apply String.eqb_neq in EU. rewrite alookup_aset_other in HL by exact EU.
+      pose proof (HI url' p' HL) as HP.
+      assert (p' <> p) as NP. { intros ->. unfold amem in FR. rewrite HP in FR. discriminate. }
+      rewrite alookup_aset_other by exact NP. exact HP.
+Qed.
+
+Lemma nodupZ_NoDup l : nodupZ l = true -> NoDup l.
+Proof.
+  induction l as [|x r IH]; intros H; [constructor|]. cbn [nodupZ] in H. apply andb_prop in H. destruct H as [H1 H2].
+  constructor; [|apply IH; exact H2]. intros Hi. apply memZ_In in Hi. rewrite Hi in H1. discriminate.
+Qed.
+Lemma insert_id_in x y l : In x (insert_id y l) -> x = y \/ In x l.
+Proof.
+  induction l as [|z r IH]; cbn [insert_id]; intros H.
+  - destruct H as [<-|[]]. left. reflexivity.
+  - destruct (fst y <=? fst z).
+    + destruct H as [<-|H]; [left; reflexivity|right; exact H].
+    + destruct H as [<-|H]; [right; left; reflexivity|]. destruct (IH H) as [->|Hi]; [left; reflexivity|right; right; exact Hi].
+Qed.
+Lemma sort_ids_in x l : In x (sort_ids l) -> In x l.
+Proof.
+  unfold sort_ids. induction l as [|y r IH]; cbn [fold_right]; intros H; [exact H|].
+  apply insert_id_in in H. destruct H as [->|H]; [left; reflexivity|right; apply IH; exact H].
+Qed.
+
+Section Doc.
+Variable fmt_flt : flt -> string.
+Variable parse_flt : string -> option flt.
+Hypothesis flt_rt : forall x, parse_flt (fmt_flt x) = Some x.
+Hypothesis flt_tok : forall x, tok_ok (fmt_flt x).
+Variables (s : schema) (c : cas).
+
+Definition elem_of (io : xid * oid) (e : xelem) : Prop :=
+  exists f, hget (c_heap c) (snd io) = Some f /\ enc_fs fmt_flt s c (fst (ns_of_type (o_type f))) (fst io) f = Ok e.
+Lemma enc_all_inv : forall L st es, ns_inv st -> enc_all fmt_flt s c st L = Ok es -> Forall2 elem_of L es.
+Proof.
+  induction L as [|[i o] r IH]; intros st es HI H; cbn [enc_all] in H.
+  - injection H as <-. constructor.
+  - destruct (hget (c_heap c) o) as [f|] eqn:HG; [|discriminate].
+    destruct (alloc_ns st (o_type f)) as [[u st']| |] eqn:EA; cbn [bind] in H; try discriminate.
+    destruct (prefix_alloc_injective st _ u st' HI EA) as [-> HI'].
+    cbn [fst snd] in H.
+    destruct (enc_fs fmt_flt s c (fst (ns_of_type (o_type f))) i f) as [e| |] eqn:EE; cbn [bind] in H; try discriminate.
+    destruct (enc_all fmt_flt s c st' r) as [es'| |] eqn:ER; cbn [bind] in H; try discriminate.
+    injection H as <-. constructor.
+    + exists f. split; [exact HG|exact EE].
+    + apply (IH st' es' HI' ER).
+Qed.
+
+Variable ids : list Z.
+Hypothesis H0 : memZ 0 ids = false.
+Hypothesis Hsofa0 : forall vn so, sofa_of_view c vn = Some so -> s_xid so <> 0.
+Variable g : cview -> csofa.
+Hypothesis HT : sofas_track g.
+Hypothesis NDS : NoDup (map (fun v => s_xid (v_sofa v)) (c_views c)).
+
+Lemma dec_all L es : Forall2 elem_of L es -> (forall io, In io L -> fs_okb s c ids io = true) ->
+  mapM (dec_fs parse_flt s (map g (c_views c))) es
+  = mapM (fun io => do x <- canon_fs s c io ;; Ok (fst x, norm_cfs s (snd x))) L.
+Proof.
+  induction 1 as [|io e L es [f [HG HE]] HF IH]; intros HO; [reflexivity|]. cbn [mapM].
+  rewrite (dec_enc_fs fmt_flt parse_flt flt_rt flt_tok s c ids H0 Hsofa0 g io f e HT NDS HG (HO io (or_introl eq_refl)) HE).
+  rewrite IH by (intros io' Hi; apply HO; right; exact Hi). reflexivity.
+Qed.
+
+(* ---- sofas and views ---- *)
+Definition arr_id (so : sofa) : option xid :=
+  match s_arr so with
+  | Some o => match hget (c_heap c) o with Some f => o_id f | None => None end
+  | None => None
+  end.
+Definition g0 (v : cview) : csofa :=
+  let so := v_sofa v in
+  mkCsofa (s_xid so) (s_num so) (s_name so) (s_text so) (s_mime so) (s_uri so) (arr_id so) [].
+Definition msf (v : cview) : list Z :=
+  map (fun o => match hget (c_heap c) o with Some f => match o_id f with Some j => j | None => 0 end | None => 0 end)
+      (v_members v).
+
+Definition sofa_attrs (a b d : string) (m t u r : option string) : list (string * string) :=
+  ([(A_ID, a); ("sofaNum", b); ("sofaID", d)] ++ opt_attr "mimeType" m ++ opt_attr "sofaString" t
+     ++ opt_attr "sofaURI" u ++ opt_attr "sofaArray" r)%list.
+Lemma sofa_attrs_lookup a b d m t u r :
+  alookup A_ID (sofa_attrs a b d m t u r) = Some a /\ alookup "sofaNum" (sofa_attrs a b d m t u r) = Some b
+  /\ alookup "sofaID" (sofa_attrs a b d m t u r) = Some d /\ alookup "mimeType" (sofa_attrs a b d m t u r) = m
+  /\ alookup "sofaString" (sofa_attrs a b d m t u r) = t /\ alookup "sofaURI" (sofa_attrs a b d m t u r) = u
+  /\ alookup "sofaArray" (sofa_attrs a b d m t u r) = r.
+Proof. destruct m, t, u, r; repeat split; reflexivity. Qed.
+
+Lemma list_eqb_N a b : list_eqb N.eqb a b = true -> a = b.
+Proof.
+  revert b. induction a as [|x r IH]; intros [|y q] H; cbn [list_eqb] in H; try discriminate; [reflexivity|].
+  apply andb_prop in H. destruct H as [H1 H2]. apply N.eqb_eq in H1. subst. f_equal. apply IH. exact H2.
+Qed.
+Lemma text_okb_rt t : text_okb t = true -> utf8_decode (utf8_encode t) = Some t.
+Proof.
+  unfold text_okb. destruct (utf8_decode (utf8_encode t)) as [t'|]; unfold opt_eqb; [|discriminate].
+  intros H. apply list_eqb_N in H. subst. reflexivity.
+Qed.
+
+Lemma dec_enc_sofa v e : view_okb c ids v = true -> enc_sofa (c_heap c) (v_sofa v) = Ok e ->
+  dec_sofa e = Ok (g0 v) /\ is_sofa e = true /\ is_null e = false /\ is_view e = false.
+Proof.
+  intros HV HE. unfold view_okb in HV. apply andb_prop in HV. destruct HV as [HV _].
+  apply andb_prop in HV. destruct HV as [HArr HTxt].
+  unfold enc_sofa in HE. unfold g0, arr_id.
+  assert (exists r, (match s_arr (v_sofa v) with None => Ok None | Some o => do a <- id_str (c_heap c) o ;; Ok (Some a) end) = Ok r
+                    /\ opt_int r = Ok (match s_arr (v_sofa v) with
+                                       | Some o => match hget (c_heap c) o with Some f => o_id f | None => None end
+                                       | None => None end)) as [r [ER EI]].
+  { destruct (s_arr (v_sofa v)) as [o|]; [|exists None; split; reflexivity].
+    cbn [ref_okb] in HArr. unfold id_str. destruct (hget (c_heap c) o) as [f|]; [|discriminate].
+    destruct (o_id f) as [j|]; [|discriminate]. exists (Some (z2s j)). split; [reflexivity|].
+    cbn [opt_int]. unfold int_attr. rewrite s2z_z2s. reflexivity. }
+  rewrite ER in HE. cbn [bind] in HE. injection HE as <-.
+  match goal with |- context [mkX NS_CAS "Sofa" ?A []] =>
+    change A with (sofa_attrs (z2s (s_xid (v_sofa v))) (z2s (s_num (v_sofa v))) (s_name (v_sofa v)) (s_mime (v_sofa v))
+                   (option_map utf8_encode (s_text (v_sofa v))) (s_uri (v_sofa v)) r) end.
+  split; [|repeat split; reflexivity].
+  unfold dec_sofa, x_id, xattr. cbn [x_attrs].
+  destruct (sofa_attrs_lookup (z2s (s_xid (v_sofa v))) (z2s (s_num (v_sofa v))) (s_name (v_sofa v)) (s_mime (v_sofa v))
+                   (option_map utf8_encode (s_text (v_sofa v))) (s_uri (v_sofa v)) r) as [L1 [L2 [L3 [L4 [L5 [L6 L7]]]]]].
+  rewrite L1, L2, L3, L4, L5, L6, L7. unfold int_attr. rewrite !s2z_z2s. cbn [bind].
+  destruct (s_text (v_sofa v)) as [t|]; cbn [option_map].
+  - rewrite (text_okb_rt t HTxt). cbn [bind]. rewrite EI. reflexivity.
+  - cbn [bind]. rewrite EI. reflexivity.
+Qed.
+
+Lemma members_ok v : view_okb c ids v = true -> mapM (member_id (c_heap c)) (v_members v) = Ok (msf v).
+Proof.
+  intros HV. unfold view_okb in HV. apply andb_prop in HV. destruct HV as [_ HM].
+  unfold msf. apply mapM_ok_map. intros o Ho. pose proof (forallb_In _ _ _ HM Ho) as P. cbn [ref_okb] in P.
+  unfold member_id. destruct (hget (c_heap c) o) as [f|]; [|discriminate]. destruct (o_id f); [reflexivity|discriminate].
+Qed.
+Lemma dec_ints_attr l : mapM int_attr (split_ws (join (map z2s l))) = Ok l.
+Proof.
+  rewrite mapM_tokens.
+  - induction l as [|x r IH]; [reflexivity|]. cbn [map mapM]. unfold int_attr at 1. rewrite s2z_z2s. cbn [bind].
+    rewrite IH. reflexivity.
+  - apply Forall_forall. intros t Hi. apply in_map_iff in Hi. destruct Hi as [x [<- _]]. apply z2s_tok.
+Qed.
+Lemma dec_enc_view v e : view_okb c ids v = true -> enc_view (c_heap c) v = Ok e ->
+  dec_view e = Ok (s_xid (v_sofa v), zsort (msf v)) /\ is_view e = true /\ is_null e = false /\ is_sofa e = false.
+Proof.
+  intros HV HE. unfold enc_view in HE. rewrite (members_ok v HV) in HE. cbn [bind] in HE. injection HE as <-.
+  split; [|repeat split; reflexivity].
+  unfold dec_view.
+  change (xattr (mkX NS_CAS "View" [("sofa", z2s (s_xid (v_sofa v))); ("members", join (map z2s (zsort (msf v))))] []) "sofa")
+    with (Some (z2s (s_xid (v_sofa v)))).
+  change (xattr (mkX NS_CAS "View" [("sofa", z2s (s_xid (v_sofa v))); ("members", join (map z2s (zsort (msf v))))] []) "members")
+    with (Some (join (map z2s (zsort (msf v))))).
+  unfold int_attr at 1. rewrite s2z_z2s. cbn [bind]. rewrite dec_ints_attr. reflexivity.
+Qed.
+
+Lemma enc_fs_ns_tag ns i f e : enc_fs fmt_flt s c ns i f = Ok e -> x_ns e = ns /\ x_tag e = snd (ns_of_type (o_type f)).
+Proof.
+  unfold enc_fs. intros H.
+  repeat match goal with
+  | H : (do _ <- ?x ;; _) = Ok _ |- _ => destruct x eqn:?; cbn [bind] in H; try discriminate
+  | H : match ?x with _ => _ end = Ok _ |- _ => destruct x eqn:?; try discriminate
+  | H : (if ?x then _ else _) = Ok _ |- _ => destruct x eqn:?; try discriminate
+  | H : Ok _ = Ok _ |- _ => injection H as <-
+  end; split; reflexivity.
+Qed.
+Lemma elem_is_fs io e : elem_of io e -> fs_okb s c ids io = true -> is_fs e = true.
+Proof.
+  intros [f [HG HE]] HO. unfold fs_okb in HO. rewrite HG in HO.
+  apply andb_prop in HO. destruct HO as [HO _]. apply andb_prop in HO. destruct HO as [_ HTn].
+  unfold tname_okb in HTn. apply andb_prop in HTn. destruct HTn as [_ HN]. apply negb_true_iff in HN.
+  destruct (enc_fs_ns_tag _ _ _ _ HE) as [En Et].
+  unfold is_fs, is_null, is_sofa, is_view, is_cas. rewrite En, Et.
+  destruct (String.eqb (fst (ns_of_type (o_type f))) NS_CAS); [|reflexivity]. cbn [andb] in *.
+  cbn [memb] in HN. apply orb_false_iff in HN. destruct HN as [N1 HN]. apply orb_false_iff in HN. destruct HN as [N2 HN].
+  apply orb_false_iff in HN. destruct HN as [N3 _]. rewrite N1, N2, N3. reflexivity.
+Qed.
+End Doc.
+
+Lemma filter_all {A} (p : A -> bool) l : (forall x, In x l -> p x = true) -> filter p l = l.
+Proof.
+  induction l as [|x r IH]; intros H; [reflexivity|]. cbn [filter]. rewrite (H x (or_introl eq_refl)).
+  rewrite IH; [reflexivity|]. intros y Hy. apply H. right. exact Hy.
+Qed.
+Lemma filter_none {A} (p : A -> bool) l : (forall x, In x l -> p x = false) -> filter p l = [].
+Proof.
+  induction l as [|x r IH]; intros H; [reflexivity|]. cbn [filter]. rewrite (H x (or_introl eq_refl)).
+  apply IH. intros y Hy. apply H. right. exact Hy.
+Qed.
+Lemma Forall2_in_r {A B} (R : A -> B -> Prop) l l' y : Forall2 R l l' -> In y l' -> exists x, In x l /\ R x y.
+Proof.
+  induction 1 as [|a b l l' Hab HF IH]; intros Hi; [destruct Hi|]. destruct Hi as [->|Hi].
+  - exists a. split; [left; reflexivity|exact Hab].
+  - destruct (IH Hi) as [x [Hx Rx]]. exists x. split; [right; exact Hx|exact Rx].
+Qed.
+
+(* zsort is idempotent *)
+Lemma zinsert_sorted x l : Sorted Z.le l -> Sorted Z.le (zinsert x l).
+Proof.
+  induction 1 as [|y r HS IH HH]; cbn [zinsert]; [repeat constructor|].
+  destruct (x <=? y) eqn:E.
+  - constructor; [constructor; assumption|constructor; lia].
+  - constructor; [exact IH|]. destruct r as [|z r']; cbn [zinsert]; [constructor; lia|].
+    destruct (x <=? z); constructor; [lia|]. inversion HH; subst. assumption.
+Qed.
+Lemma zsort_sorted l : Sorted Z.le (zsort l).
+Proof. unfold zsort. induction l as [|x r IH]; [constructor|]. cbn [fold_right]. apply zinsert_sorted. exact IH. Qed.
+Lemma zsort_id l : Sorted Z.le l -> zsort l = l.
+Proof.
+  unfold zsort. induction 1 as [|x r HS IH HH]; [reflexivity|]. cbn [fold_right]. rewrite IH.
+  destruct r as [|y r']; [reflexivity|]. cbn [zinsert]. inversion HH; subst.
+  replace (x <=? y) with true by (symmetry; apply Z.leb_le; assumption). reflexivity.
+Qed.
+Lemma zsort_idem l : zsort (zsort l) = zsort l.
+Proof. apply zsort_id, zsort_sorted. Qed.
+
+Lemma insert_by_map {A B} (ka : A -> Z) (kb : B -> Z) (N : A -> B) x l : (forall y, kb (N y) = ka y) ->
+  insert_by kb (N x) (map N l) = map N (insert_by ka x l).
+Proof.
+  intros HN. induction l as [|y r IH]; [reflexivity|]. cbn [map insert_by]. rewrite !HN.
+  destruct (ka x <=? ka y); [reflexivity|]. cbn [map]. rewrite IH. reflexivity.
+Qed.
+Lemma sort_by_map {A B} (ka : A -> Z) (kb : B -> Z) (N : A -> B) l : (forall y, kb (N y) = ka y) ->
+  sort_by kb (map N l) = map N (sort_by ka l).
+Proof.
+  intros HN. unfold sort_by. induction l as [|x r IH]; [reflexivity|]. cbn [map fold_right].
+  rewrite IH. apply insert_by_map. exact HN.
+Qed.
+Lemma filter_views {V} (F : cview -> V) views v :
+  NoDup (map (fun v => s_xid (v_sofa v)) views) -> In v views ->
+  filter (fun p : Z * V => Z.eqb (fst p) (s_xid (v_sofa v))) (map (fun w => (s_xid (v_sofa w), F w)) views)
+  = [(s_xid (v_sofa v), F v)].
+Proof.
+  induction views as [|w r IH]; intros ND Hi; [destruct Hi|]. cbn [map] in ND. inversion ND as [|? ? Hn ND']; subst.
+  cbn [map filter fst]. destruct Hi as [->|Hi].
+  - rewrite Z.eqb_refl. f_equal. apply filter_none. intros p Hp. apply in_map_iff in Hp. destruct Hp as [u [<- Hu]].
+    cbn [fst]. apply Z.eqb_neq. intros E. apply Hn. rewrite <- E. apply (in_map (fun v => s_xid (v_sofa v))). exact Hu.
+  - destruct (Z.eqb (s_xid (v_sofa w)) (s_xid (v_sofa v))) eqn:E.
+    + apply Z.eqb_eq in E. exfalso. apply Hn. rewrite E. apply (in_map (fun v => s_xid (v_sofa v))). exact Hi.
+    + apply IH; assumption.
+Qed.
+Lemma memZ_app z a b : memZ z (a ++ b) = memZ z a || memZ z b.
+Proof. induction a as [|x r IH]; [reflexivity|]. cbn [app memZ]. rewrite IH. apply orb_assoc. Qed.
+
+Lemma mapM_Forall2_ok {A B C} (f : B -> res C) (h : A -> C) l l' :
+  Forall2 (fun x y => f y = Ok (h x)) l l' -> mapM f l' = Ok (map h l).
+Proof. induction 1 as [|x y l l' H HF IH]; [reflexivity|]. cbn [mapM map]. rewrite H, IH. reflexivity. Qed.
+Lemma mapM_bind_map {A B C} (f : A -> res B) (N : B -> C) l :
+  mapM (fun x => do y <- f x ;; Ok (N y)) l = do ys <- mapM f l ;; Ok (map N ys).
+Proof.
+  induction l as [|x r IH]; [reflexivity|]. cbn [mapM]. destruct (f x); cbn [bind]; try reflexivity.
+  rewrite IH. destruct (mapM f r); reflexivity.
+Qed.
+Lemma Forall2_impl_in {A B} (R Q : A -> B -> Prop) l l' :
+  Forall2 R l l' -> (forall x y, In x l -> R x y -> Q x y) -> Forall2 Q l l'.
+Proof.
+  induction 1 as [|x y l l' H HF IH]; intros HI; constructor.
+  - apply HI; [left; reflexivity|exact H].
+  - apply IH. intros a b Ha. apply HI. right. exact Ha.
+Qed.
+
+Section Main.
+Variable fmt_flt : flt -> string.
+Variable parse_flt : string -> option flt.
+Hypothesis flt_rt : forall x, parse_flt (fmt_flt x) = Some x.
+Hypothesis flt_tok : forall x, tok_ok (fmt_flt x).
+
+Definition write_doc (s : schema) (c : cas) (all : list (xid * oid)) : res xdoc :=
+  do fss <- enc_all fmt_flt s c ns_init (sort_ids all) ;;
+  do sofas <- mapM (fun v => enc_sofa (c_heap c) (v_sofa v)) (c_views c) ;;
+  do vs <- mapM (enc_view (c_heap c)) (c_views c) ;;
+  Ok (null_elem :: fss ++ sofas ++ vs)%list.
+
+Theorem denote_written s c all d :
+  wf_xmib s c all = true -> write_doc s c all = Ok d ->
+  denote_xmi parse_flt s d = do x <- canon_of s c (sort_ids all) ;; Ok (norm_xmi s x).
+Proof.
+  intros WF H. unfold write_doc in H.
+  destruct (enc_all fmt_flt s c ns_init (sort_ids all)) as [fss| |] eqn:EF; cbn [bind] in H; try discriminate.
+  destruct (mapM (fun v => enc_sofa (c_heap c) (v_sofa v)) (c_views c)) as [ses| |] eqn:ES; cbn [bind] in H; try discriminate.
+  destruct (mapM (enc_view (c_heap c)) (c_views c)) as [ves| |] eqn:EV; cbn [bind] in H; try discriminate.
+  injection H as <-.
+  unfold wf_xmib in WF. set (ids := map fst all) in *. set (sids := map (fun v => s_xid (v_sofa v)) (c_views c)) in *.
+  apply andb_prop in WF. destruct WF as [WF W4]. apply andb_prop in WF. destruct WF as [WF W3].
+  apply andb_prop in WF. destruct WF as [W1 W2].
+  cbn [nodupZ] in W1. apply andb_prop in W1. destruct W1 as [W10 W1]. apply negb_true_iff in W10.
+  rewrite memZ_app in W10. apply orb_false_iff in W10. destruct W10 as [Z1 Z2].
+  apply nodupZ_NoDup in W1.
+  assert (NoDup sids) as NDS.
+  { clear -W1. induction sids as [|x r IH]; [constructor|]. cbn [app] in W1. inversion W1; subst. constructor.
+    - intros Hi. apply H1. apply in_or_app. left. exact Hi.
+    - apply IH. assumption. }
+  assert (forall vn so, sofa_of_view c vn = Some so -> s_xid so <> 0) as Hs0.
+  { intros vn so SV E. destruct (sofa_of_view_in c vn so SV) as [v [Hv <-]].
+    assert (In 0 sids) as Hi by (rewrite <- E; apply (in_map (fun v => s_xid (v_sofa v))); exact Hv).
+    apply memZ_In in Hi. rewrite Hi in Z1. discriminate. }
+  (* the elements *)
+  pose proof (enc_all_inv fmt_flt s c _ _ _ ns_inv_init EF) as E1.
+  assert (forall io, In io (sort_ids all) -> fs_okb s c ids io = true) as OK4.
+  { intros io Hi. apply sort_ids_in in Hi. apply (forallb_In _ _ _ W4 Hi). }
+  apply mapM_inv in ES. apply mapM_inv in EV.
+  assert (Forall2 (fun v e => dec_sofa e = Ok (g0 c v) /\ is_sofa e = true /\ is_null e = false /\ is_view e = false)
+                  (c_views c) ses) as S2.
+  { apply (Forall2_impl_in _ _ _ _ ES). intros v e Hv HE. apply (dec_enc_sofa c ids v e (forallb_In _ _ _ W3 Hv) HE). }
+  assert (Forall2 (fun v e => dec_view e = Ok (s_xid (v_sofa v), zsort (msf c v)) /\ is_view e = true /\ is_null e = false /\ is_sofa e = false)
+                  (c_views c) ves) as V2.
+  { apply (Forall2_impl_in _ _ _ _ EV). intros v e Hv HE. apply (dec_enc_view c ids v e (forallb_In _ _ _ W3 Hv) HE). }
+  assert (forall e, In e fss -> is_fs e = true) as FSF.
+  { intros e He. destruct (Forall2_in_r _ _ _ e E1 He) as [io [Hio Rio]]. apply (elem_is_fs fmt_flt s c ids io e Rio (OK4 io Hio)). }
+  assert (forall e, In e ses -> is_sofa e = true /\ is_null e = false /\ is_view e = false) as SF.
+  { intros e He. destruct (Forall2_in_r _ _ _ e S2 He) as [v [_ R]]. tauto. }
+  assert (forall e, In e ves -> is_view e = true /\ is_null e = false /\ is_sofa e = false) as VF.
+  { intros e He. destruct (Forall2_in_r _ _ _ e V2 He) as [v [_ R]]. tauto. }
+  assert (forall e, is_fs e = true -> is_sofa e = false /\ is_view e = false) as FSN.
+  { intros e. unfold is_fs. destruct (is_null e), (is_sofa e), (is_view e); cbn; intros; try discriminate; split; reflexivity. }
+  assert (filter is_sofa (null_elem :: fss ++ ses ++ ves) = ses) as FS1.
+  { cbn [filter]. change (is_sofa null_elem) with false. cbv iota. rewrite !filter_app.
+    rewrite (filter_none is_sofa fss) by (intros e He; apply FSN, FSF, He).
+    rewrite (filter_all is_sofa ses) by (intros e He; apply SF, He).
+    rewrite (filter_none is_sofa ves) by (intros e He; apply VF, He). apply app_nil_r. }
+  assert (filter is_view (null_elem :: fss ++ ses ++ ves) = ves) as FS2.
+  { cbn [filter]. change (is_view null_elem) with false. cbv iota. rewrite !filter_app.
+    rewrite (filter_none is_view fss) by (intros e He; apply FSN, FSF, He).
+    rewrite (filter_none is_view ses) by (intros e He; apply SF, He).
+    rewrite (filter_all is_view ves) by (intros e He; apply VF, He). reflexivity. }
+  assert (filter is_fs (null_elem :: fss ++ ses ++ ves) = fss) as FS3.
+  { cbn [filter]. change (is_fs null_elem) with false. cbv iota. rewrite !filter_app.
+    rewrite (filter_all is_fs fss) by exact FSF.
+    rewrite (filter_none is_fs ses).
+    2:{ intros e He. destruct (SF e He) as [A _]. unfold is_fs. rewrite A. rewrite orb_true_r. reflexivity. }
+    rewrite (filter_none is_fs ves).
+    2:{ intros e He. destruct (VF e He) as [A _]. unfold is_fs. rewrite A. rewrite !orb_true_r. reflexivity. }
+    rewrite !app_nil_r. reflexivity. }
+  unfold denote_xmi, doc_sofas, doc_views. rewrite FS1, FS2, FS3.
+  rewrite (mapM_Forall2_ok dec_sofa (g0 c) (c_views c) ses) by (apply (Forall2_impl_in _ _ _ _ S2); tauto).
+  rewrite (mapM_Forall2_ok dec_view (fun v => (s_xid (v_sofa v), zsort (msf c v))) (c_views c) ves)
+    by (apply (Forall2_impl_in _ _ _ _ V2); tauto).
+  cbn [bind].
+  assert (sofas_track (g0 c)) as HT by (intros v; split; reflexivity).
+  rewrite (dec_all fmt_flt parse_flt flt_rt flt_tok s c ids Z2 Hs0 (g0 c) HT NDS (sort_ids all) fss E1 OK4).
+  rewrite mapM_bind_map.
+  (* the canonical side *)
+  unfold canon_of.
+  assert (mapM (canon_sofa c) (c_views c)
+          = Ok (map (with_members (map (fun v => (s_xid (v_sofa v), zsort (msf c v))) (c_views c))) (map (g0 c) (c_views c)))) as CS.
+  { rewrite map_map. apply mapM_ok_map. intros v Hv. pose proof (forallb_In _ _ _ W3 Hv) as VO.
+    unfold canon_sofa. rewrite (members_ok c ids v VO). cbn [bind].
+    unfold with_members, g0, members_of. cbn [cs_id cs_num cs_name cs_text cs_mime cs_uri cs_arr].
+    pose proof (filter_views (V:=list Z) (fun w => zsort (msf c w)) (c_views c) v NDS Hv) as FV. cbv beta in FV.
+    unfold xid in *. rewrite FV. cbn [flat_map snd]. rewrite app_nil_r, zsort_idem.
+    unfold view_okb in VO. apply andb_prop in VO. destruct VO as [VO _]. apply andb_prop in VO. destruct VO as [VA _].
+    unfold arr_id. destruct (s_arr (v_sofa v)) as [o|]; [|reflexivity].
+    cbn [ref_okb] in VA. unfold ref_id. destruct (hget (c_heap c) o) as [f|]; [|discriminate].
+    destruct (o_id f); [reflexivity|discriminate]. }
+  rewrite CS. cbn [bind].
+  destruct (mapM (canon_fs s c) (sort_ids all)) as [fs0| |]; cbn [bind]; try reflexivity.
+  unfold norm_xmi. cbn [cc_sofas cc_fs]. f_equal. f_equal.
+  apply (sort_by_map fst fst (fun p : xid * cfs => (fst p, norm_cfs s (snd p)))). reflexivity.
+Qed.
+
+Lemma save_xmi_split s c d c' : save_xmi fmt_flt s c = Ok (d, c') ->
+  exists all, written s c = Ok (c', all) /\ write_doc s c' all = Ok d.
+Proof.
+  unfold save_xmi, write_doc. destruct (written s c) as [[c1 all]| |]; cbn [bind fst snd]; try discriminate.
+  intros H. exists all.
+  destruct (enc_all fmt_flt s c1 ns_init (sort_ids all)) as [fss| |] eqn:E1; cbn [bind] in H; try discriminate.
+  destruct (mapM (fun v => enc_sofa (c_heap c1) (v_sofa v)) (c_views c1)) as [ses| |] eqn:E2; cbn [bind] in H; try discriminate.
+  destruct (mapM (enc_view (c_heap c1)) (c_views c1)) as [ves| |] eqn:E3; cbn [bind] in H; try discriminate.
+  injection H as <- <-. rewrite E1, E2, E3. split; reflexivity.
+Qed.
+
+(* C04 / C01: read by the independent denotation, the document the writer produces is the canonical content of the CAS
+   (ids assigned), up to ""/null inside string arrays and lists *)
+Theorem denote_save_xmi s c d c' :
+  save_xmi fmt_flt s c = Ok (d, c') ->
+  (forall all, written s c = Ok (c', all) -> wf_xmib s c' all = true) ->
+  denote_xmi parse_flt s d = do x <- canon_xmi s c ;; Ok (norm_xmi s x).
+Proof.
+  intros HS HW. destruct (save_xmi_split s c d c' HS) as [all [HWr HD]].
+  unfold canon_xmi. rewrite HWr. cbn [bind fst snd].
+  apply (denote_written s c' all d (HW all HWr) HD).
+Qed.
+End Main.
